@@ -2,13 +2,13 @@ SPECIFICATION Spec
 CONSTANTS
   NSeg = 4
   MaxCommits = 2
-  SyncBeforeMeta = "ifnewseg"
+  SyncBeforeMeta = "always"
   SyncAfterMeta = TRUE
   RegisterFirst = TRUE
   OldDelDeletedEarly = FALSE
   GcProtectsBuilding = TRUE
   MaxFaults = 1
   StoreMetaFirst = FALSE
-  KillWaits = TRUE
-INVARIANT CrashSafe
+  KillWaits = FALSE
+INVARIANT NoCommitLost
 CHECK_DEADLOCK FALSE
